@@ -2,5 +2,6 @@ INIT Init
 NEXT Next
 CONSTANTS Level = 1
           Full = FALSE
+          Lanes = 32
 INVARIANT SpecSane
 CHECK_DEADLOCK FALSE
